@@ -115,7 +115,16 @@ static int fail_now(const char *call, int fd) {
 
 /* ---- trace mode ---- */
 static const char *track_path, *snap_dir;
-static int log_fd = -1, track_fd = -1, trace_idx;
+static int log_fd = -1, trace_idx;
+/* every descriptor open on the tracked path (a nested writer may open the output a second time while the first is still open) */
+static int track_fds[16], n_track;
+static int tracked(int fd) {
+  if (fd < 0) return 0;
+  for (int i = 0; i < n_track; ++i) if (track_fds[i] == fd) return 1;
+  return 0;
+}
+static void track_add(int fd) { if (!tracked(fd) && n_track < 16) track_fds[n_track++] = fd; }
+static void track_del(int fd) { for (int i = 0; i < n_track; ++i) if (track_fds[i] == fd) { track_fds[i] = track_fds[--n_track]; return; } }
 static struct { char *addr; size_t len; off_t off; } maps[64];
 static int nmaps;
 
@@ -252,7 +261,8 @@ static size_t storm_count(int fd, size_t count) {
 
 /* ------------------------------------------------------------------------------------------ */
 static void snapshot(int idx) {
-  if (!snap_dir || track_fd < 0) return;
+  if (!snap_dir || n_track == 0) return;
+  int track_fd = track_fds[0];
   char name[4096];
   snprintf(name, sizeof name, "%s/%05d.img", snap_dir, idx);
   int out = real_open(name, O_WRONLY | O_CREAT | O_TRUNC | O_CLOEXEC, 0644);
@@ -296,7 +306,7 @@ static void logcall(const char *fmt, ...) {
 static void on_alarm(int sig) {
   (void)sig;
   int saved = errno;
-  if (!in_log && track_fd >= 0) {       /* only instants at which the output file is open count (and lengthen the interval) */
+  if (!in_log && n_track > 0) {       /* only instants at which the output file is open count (and lengthen the interval) */
     logcall("sample");
     --sample_left;
     sample_interval_us += sample_interval_us / 4 + 1;
@@ -319,7 +329,7 @@ static int do_open(const char *path, int flags, mode_t mode) {
   if ((flags & O_ACCMODE) != O_RDONLY && fail_now("open", -1)) return -1;
   int fd = real_open(path, flags, mode);
   if (fd >= 0 && is_tracked_path(path) && (flags & O_ACCMODE) != O_RDONLY) {
-    track_fd = fd;
+    track_add(fd);
     logcall("open flags=%s%s", (flags & O_CREAT) ? "C" : "", (flags & O_TRUNC) ? "T" : "");
   }
   return fd;
@@ -339,7 +349,7 @@ static int do_openat(int dirfd, const char *path, int flags, mode_t mode) {
   if ((flags & O_ACCMODE) != O_RDONLY && fail_now("open", -1)) return -1;
   int fd = real_openat(dirfd, path, flags, mode);
   if (fd >= 0 && dirfd == AT_FDCWD && is_tracked_path(path) && (flags & O_ACCMODE) != O_RDONLY) {
-    track_fd = fd;
+    track_add(fd);
     logcall("open flags=%s%s", (flags & O_CREAT) ? "C" : "", (flags & O_TRUNC) ? "T" : "");
   }
   return fd;
@@ -377,7 +387,7 @@ ssize_t write(int fd, const void *buf, size_t count) {
     return tally(real_write(fd, buf, n));
   }
   if (fail_now("write", fd)) return -1;
-  if (fd == track_fd && fd >= 0) logcall("write off=%lld len=%zu", (long long)real_lseek(fd, 0, SEEK_CUR), count);
+  if (tracked(fd)) logcall("write off=%lld len=%zu", (long long)real_lseek(fd, 0, SEEK_CUR), count);
   size_t c = storm_count(fd, count);
   if (count && !c) { errno = EINTR; return -1; }
   return real_write(fd, buf, c);
@@ -406,7 +416,7 @@ static ssize_t do_pwrite(int fd, const void *buf, size_t count, off_t off) {
     return tally(real_pwrite(fd, buf, n, off));
   }
   if (fail_now("pwrite", fd)) return -1;
-  if (fd == track_fd && fd >= 0) logcall("write off=%lld len=%zu", (long long)off, count);
+  if (tracked(fd)) logcall("write off=%lld len=%zu", (long long)off, count);
   size_t c = storm_count(fd, count);
   if (count && !c) { errno = EINTR; return -1; }
   return real_pwrite(fd, buf, c, off);
@@ -427,20 +437,20 @@ int fsync(int fd) {
   init();
   int ret;
   if (single(fd, &ret)) return ret;
-  if ((!fail_tracked_only || (fd == track_fd && fd >= 0)) && fail_now("fsync", fd)) {
+  if ((!fail_tracked_only || (tracked(fd))) && fail_now("fsync", fd)) {
     int e = errno;
-    if (fd == track_fd && fd >= 0) logcall("fsync fail=%d", e);   /* a failed sync forces nothing to stable storage */
+    if (tracked(fd)) logcall("fsync fail=%d", e);   /* a failed sync forces nothing to stable storage */
     errno = e;
     return -1;
   }
-  if (fd == track_fd && fd >= 0) logcall("fsync");
+  if (tracked(fd)) logcall("fsync");
   return real_fsync(fd);
 }
 int fdatasync(int fd) {
   init();
   int ret;
   if (single(fd, &ret)) return ret;
-  if (fd == track_fd && fd >= 0) logcall("fsync");
+  if (tracked(fd)) logcall("fsync");
   return real_fdatasync(fd);
 }
 
@@ -449,7 +459,7 @@ static int do_ftruncate(int fd, off_t len) {
   int ret;
   if (single(fd, &ret)) return ret;
   if (fail_now("ftruncate", fd)) return -1;
-  if (fd == track_fd && fd >= 0) logcall("ftruncate len=%lld", (long long)len);
+  if (tracked(fd)) logcall("ftruncate len=%lld", (long long)len);
   return real_ftruncate(fd, len);
 }
 int ftruncate(int fd, off_t len) { return do_ftruncate(fd, len); }
@@ -458,10 +468,10 @@ int ftruncate64(int fd, off_t len) { return do_ftruncate(fd, len); }
 static void *do_mmap(void *addr, size_t len, int prot, int flags, int fd, off_t off) {
   init();
   if (fd > 2 && fail_now("mmap", fd)) return MAP_FAILED;
-  if (fd == track_fd && fd >= 0 && (flags & MAP_SHARED) && (prot & PROT_WRITE))
+  if (tracked(fd) && (flags & MAP_SHARED) && (prot & PROT_WRITE))
     logcall("mmap off=%lld len=%zu", (long long)off, len);
   void *r = real_mmap(addr, len, prot, flags, fd, off);
-  if (r != MAP_FAILED && fd == track_fd && fd >= 0 && (flags & MAP_SHARED) && (prot & PROT_WRITE) && nmaps < 64) {
+  if (r != MAP_FAILED && tracked(fd) && (flags & MAP_SHARED) && (prot & PROT_WRITE) && nmaps < 64) {
     maps[nmaps].addr = (char *)r; maps[nmaps].len = len; maps[nmaps].off = off; ++nmaps;
   }
   return r;
@@ -494,9 +504,9 @@ int msync(void *addr, size_t len, int flags) {
 
 int close(int fd) {
   init();
-  if (fd == track_fd && fd >= 0) {
+  if (tracked(fd)) {
     logcall("close");
-    track_fd = -1;
+    track_del(fd);
   }
   if (fd == armed_fd) armed_fd = -1;
   if (fd >= 0 && fd < (int)sizeof first_read_done) first_read_done[fd] = 0;
